@@ -1402,7 +1402,11 @@ func areaDsl(c *Ctx) {
 				c.Stat("rt.outcome", out)
 			}
 		case x < 86: // Parse∘Explain on the real code for GSUB 5/6 and GPOS 1–4 (D, seeded)
-			genSeeded(c)
+			if r.Chance(1, 3) { // what a chained rule written in the notation means (D)
+				genMeaning(c)
+			} else {
+				genSeeded(c)
+			}
 		case x < 93: // totality on all forms, mutated (D)
 			d := simpleFont
 			t := Pick(r, append(dslSnippets, dslOtherForms...))
